@@ -61,16 +61,17 @@ SpAfter(b)    == b.lb \in { "start", "inline" } /\ b.sa
 SpBefore(b)   == b.lb \in { "end", "inline" } /\ b.sb
 
 \* format_extraction, token by token
-RECURSIVE PrintFrom(_, _, _, _)
-PrintFrom(toks, i, last, indent) ==
+RECURSIVE FmtFrom(_, _, _, _)
+FmtFrom(toks, i, last, indent) ==
     IF i > Len(toks) THEN IF EndsLine(last) THEN << << "END" >> >> ELSE << >>
+    ELSE IF Legend[toks[i].k].lb = "remove" THEN FmtFrom(toks, i + 1, last, indent)   \* repaired: a removed token is skipped entirely
     ELSE LET b    == Legend[toks[i].k]
              ind1 == IF b.ind = -1 THEN indent - 1 ELSE indent
              sep  == IF EndsLine(last) \/ StartsLine(b) THEN << << "NL", ind1 >> >>
                      ELSE IF SpAfter(last) /\ SpBefore(b) THEN << << "SP" >> >> ELSE << >>
              tok  == IF b.lb # "remove" THEN << << "TOK", i >> >> ELSE << >>
-         IN sep \o tok \o PrintFrom(toks, i + 1, b, IF b.ind = 1 THEN ind1 + 1 ELSE ind1)
-Fmt(toks) == PrintFrom(toks, 1, Inl(FALSE, FALSE), 1)
+         IN sep \o tok \o FmtFrom(toks, i + 1, b, IF b.ind = 1 THEN ind1 + 1 ELSE ind1)
+Fmt(toks) == FmtFrom(toks, 1, Inl(FALSE, FALSE), 1)
 
 -----------------------------------------------------------------------------
 Kept(toks)      == SelectSeq([ i \in 1..Len(toks) |-> i ], LAMBDA i : toks[i].k # "COMMA")
@@ -103,7 +104,8 @@ Renumber(out, toks) ==       \* express TOK atoms by their rank among the kept t
     [ p \in 1..Len(out) |-> IF out[p][1] = "TOK" THEN << "TOK", CHOOSE j \in 1..Len(K) : K[j] = out[p][2] >> ELSE out[p] ]
 Idempotent(toks) == Fmt(Reprinted(toks)) = Renumber(Fmt(toks), toks)
 
-\* the situation in which the design is not idempotent: a removed comma directly behind a token that is its own line
+\* the situation in which the formatter before the repair (fix_c22_format_idempotent) was not idempotent: a removed
+\* comma directly behind a token that is its own line / ends a line (kept to classify observations)
 CommaAfterOwnLine(toks) ==
     \E i \in 2..Len(toks) : toks[i].k = "COMMA" /\ Legend[toks[i - 1].k].lb \in { "own", "end" }
 =============================================================================
